@@ -208,7 +208,12 @@ def main() -> None:
                     os.close(r)
                     bump(idgen, bumps)
                     garbage(int(garb))
-                    obs = observe(m, salt, recipe)
+                    before = dict(idgen._ids)  # pylint: disable=protected-access
+                    obs = observe(m, salt, [])
+                    after = dict(idgen._ids)  # pylint: disable=protected-access
+                    obs["minted"] = {k: after.get(k, 0) - before.get(k, 0) for k in after if after.get(k, 0) != before.get(k, 0)}
+                    if recipe:
+                        obs["functions"] = observe(m, salt, recipe)["functions"]
                     with os.fdopen(w, "w") as fh:
                         fh.write(json.dumps(obs))
                 finally:
